@@ -220,7 +220,8 @@ def stamp(cx):
             only_add = all(x[1] == "Add" for x in walk(v) if x[0] == "bin")
             has_ctr = any(x[0] in ("tfield",) and x[2] == 0 for x in walk(v)) or any(
                 x[0] == "phi" and ("int", 0) in x[3] and all(y == ("int", 0) or (y[0] == "bin" and y[1] == "Add" and ("int", 1) in y[2:]) for y in x[3]) for x in walk(v))
-            cx.check(has_last and has_one and only_add and has_ctr, cx.site_key(s, "write:Entry.index"), "entry index := last_index + 1 + i (found %s)" % show(v), s, value=show(v))
+            from ..idioms import is_last_index_plus_position
+            cx.check((has_last and has_one and only_add and has_ctr) or is_last_index_plus_position(cx.prog, s.fn, v), cx.site_key(s, "write:Entry.index"), "entry index := last_index + 1 + i (found %s)" % show(v), s, value=show(v))
             # same object gets both stamps
             tv = [write_value(cx, t) for t in ws_t]
         # the stamped slice is what is appended, after the stamping loop
